@@ -105,6 +105,9 @@ pub struct Env {
     pub stride: usize,
     pub obs: Vec<u64>,
     pub viol: Option<Viol>,
+    /// violations of length queries: recorded (one per distinct tag set) but the history goes on, so that a wrong
+    /// length does not mask what the following pulls and the terminal do
+    pub qviols: Vec<Viol>,
     pub step: usize,
     pub handed: [u8; NPOS],
     pub scratch: Vec<(usize, Seen)>,
@@ -122,12 +125,13 @@ pub fn subj<R>(f: impl FnOnce() -> R) -> R {
 
 impl Env {
     pub fn new(ki: KindInfo, len: usize) -> Self {
-        Env { ki, len, code: len, m: Model::new(len), src_base: 0, stride: 0, obs: Vec::with_capacity(256), viol: None, step: 0, handed: [0; NPOS], scratch: Vec::with_capacity(16), allow_zero: false }
+        Env { ki, len, code: len, m: Model::new(len), src_base: 0, stride: 0, obs: Vec::with_capacity(256), viol: None, qviols: Vec::new(), step: 0, handed: [0; NPOS], scratch: Vec::with_capacity(16), allow_zero: false }
     }
     pub fn reset(&mut self) {
         self.m = Model::new(self.len);
         self.obs.clear();
         self.viol = None;
+        self.qviols.clear();
         self.step = 0;
         self.handed = [0; NPOS];
         self.scratch.clear();
@@ -144,6 +148,13 @@ impl Env {
         if self.viol.is_none() {
             self.obs.push(MK_FAIL | self.step as u64);
             self.viol = Some(Viol { tags, class, step: self.step, detail });
+        }
+    }
+    #[cold]
+    pub fn fail_q(&mut self, tags: &'static [&'static str], class: &'static str, detail: String) {
+        if self.qviols.len() < 6 && !self.qviols.iter().any(|v| v.tags == tags) {
+            self.obs.push(MK_FAIL | 0x1000 | self.step as u64);
+            self.qviols.push(Viol { tags, class, step: self.step, detail });
         }
     }
     #[inline]
@@ -299,13 +310,13 @@ impl Env {
             HasMore::Maybe => None,
             HasMore::No => Some(0),
             HasMore::Yes(0) => {
-                self.fail(T_LEN, "yes-zero", "has_more answered Yes(0)".into());
+                self.fail_q(T_LEN, "yes-zero", "has_more answered Yes(0)".into());
                 return;
             }
             HasMore::Yes(n) => Some(n),
         };
         if hl != l {
-            self.fail(T_LEN, "has-more-inconsistent", format!("has_more {h:?} disagrees with try_get_len {l:?}"));
+            self.fail_q(T_LEN, "has-more-inconsistent", format!("has_more {h:?} disagrees with try_get_len {l:?}"));
         }
     }
 
@@ -315,23 +326,23 @@ impl Env {
             if l != Some(rem) {
                 let ended = self.m.end1 || self.m.cursor >= self.m.len;
                 let tags = if self.m.skipped && ended { T_LEN_END_SKIP } else if self.m.skipped { T_LEN_SKIP } else if rem == 0 { T_LEN_END } else { T_LEN };
-                self.fail(tags, "len-wrong", format!("{what} is {l:?} but {rem} elements will still be delivered"));
+                self.fail_q(tags, "len-wrong", format!("{what} is {l:?} but {rem} elements will still be delivered"));
             }
         } else {
             match l {
                 None => {
                     if self.m.skipped {
-                        self.fail(T_LEN_SKIP, "maybe-after-skip", format!("{what} is unknown / Maybe after skip_to_end"));
+                        self.fail_q(T_LEN_SKIP, "maybe-after-skip", format!("{what} is unknown / Maybe after skip_to_end"));
                     } else if self.m.end1 {
-                        self.fail(T_LEN_END, "maybe-after-end", format!("{what} is unknown / Maybe after a single or one-shot pull reported the end"));
+                        self.fail_q(T_LEN_END, "maybe-after-end", format!("{what} is unknown / Maybe after a single or one-shot pull reported the end"));
                     }
                 }
                 Some(0) => {
                     if rem != 0 {
-                        self.fail(T_LEN, "false-no", format!("{what} answers 0 / No although {rem} elements will still be delivered"));
+                        self.fail_q(T_LEN, "false-no", format!("{what} answers 0 / No although {rem} elements will still be delivered"));
                     }
                 }
-                Some(x) => self.fail(T_LEN, "yes-on-unknown", format!("{what} is Some({x}) for a source of unknown size")),
+                Some(x) => self.fail_q(T_LEN, "yes-on-unknown", format!("{what} is Some({x}) for a source of unknown size")),
             }
         }
     }
@@ -580,7 +591,7 @@ where
                         Some(x) => 0x2f01u64.wrapping_add(x as u64),
                     });
                     if h == HasMore::Yes(0) {
-                        env.fail(T_LEN, "yes-zero", "has_more answered Yes(0)".into());
+                        env.fail_q(T_LEN, "yes-zero", "has_more answered Yes(0)".into());
                     }
                     env.check_len("has_more", l);
                 }
